@@ -156,6 +156,8 @@ func (cp *cssProcessor) Add(item any) {
 		}
 	case KeyValue[CSSClass, bool]:
 		cp.AddClassName(c.Key.ClassName(), c.Value)
+	case KeyValue[ComponentCSSClass, bool]:
+		cp.AddClassName(c.Key.ClassName(), c.Value)
 	case CSSClasses:
 		for _, item := range c {
 			cp.Add(item)
